@@ -299,6 +299,93 @@ theorem C13_shared_no_policy (c0 hosts e : Nat) (sched : List ExecutorConc.Act) 
     m.sent ≤ ExecutorConc.started m.exs ∧ ExecutorConc.started m.exs ≤ e :=
   ExecutorConc.run_no_policy c0 hosts e sched
 
+/-! ### the built-in policies' decisions on error VALUES (`ReqErr`: what `GetRetryType(err)` switches on) -/
+
+/-- **the decision table the executor theorems use is the policy's switch**: filing an error value under its
+    abstract kind (`kindOf`) and looking the kind up (`downgradingRType`, used by `downgradingPolicyL` in every
+    theorem above) gives exactly what `DowngradingConsistencyRetryPolicy.GetRetryType` answers on the value —
+    for every write type string, every number of acknowledgements / live replicas, every other error — and the
+    answer is never an undefined retry type -/
+theorem C13_downgrading_decisions (e : ReqErr) :
+    downgradingRType (kindOf e) = downgradingGetRetryType e ∧ downgradingGetRetryType e ≠ .unknown := by
+  cases e with
+  | unavailable r a =>
+    by_cases h : a > 0 <;> simp [kindOf, downgradingGetRetryType, downgradingRType, h, kUnavailableAlive, kUnavailableNone]
+  | writeTimeout wt rc bf =>
+    by_cases h : rc > 0 <;> cases wt <;>
+      simp [kindOf, downgradingGetRetryType, downgradingRType, h, kUnavailableAlive, kUnavailableNone, kWriteTOSimpleRecv,
+        kWriteTOSimpleNone, kWriteTOUnlogged, kWriteTOOther]
+  | readTimeout rc bf dp =>
+    simp [kindOf, downgradingGetRetryType, downgradingRType, kUnavailableAlive, kUnavailableNone, kWriteTOSimpleRecv,
+      kWriteTOSimpleNone, kWriteTOUnlogged, kWriteTOOther, kReadTO]
+  | other =>
+    simp [kindOf, downgradingGetRetryType, downgradingRType, kUnavailableAlive, kUnavailableNone, kWriteTOSimpleRecv,
+      kWriteTOSimpleNone, kWriteTOUnlogged, kWriteTOOther, kReadTO]
+
+/-- FULL STATEMENT (fails on the unchanged code, proposed finding KF-C13-3): wherever the documentation of
+    DowngradingConsistencyRetryPolicy says what happens, `GetRetryType` does it:
+      ∀ e r, Spec.downgradingDoc e = some r → downgradingGetRetryType e = r.
+    Proved part: every error value except a write timeout of an UNLOGGED_BATCH that NO replica acknowledged. -/
+theorem C13_downgrading_follows_doc_partial (e : ReqErr) (r : RT) (h : Spec.downgradingDoc e = some r)
+    (hx : ∀ bf, e ≠ .writeTimeout .unloggedBatch 0 bf) : downgradingGetRetryType e = r := by
+  cases e with
+  | unavailable rq a => simp [Spec.downgradingDoc] at h; simp [downgradingGetRetryType, h]
+  | readTimeout rc bf dp => simp [Spec.downgradingDoc] at h; simp [downgradingGetRetryType, h]
+  | other => simp [Spec.downgradingDoc] at h
+  | writeTimeout wt rc bf =>
+    cases wt <;> simp [Spec.downgradingDoc] at h <;> try (simp [downgradingGetRetryType, h])
+    -- UNLOGGED_BATCH
+    have hrc : rc ≠ 0 := by
+      intro h0; subst h0; exact hx bf rfl
+    have : rc > 0 := Nat.pos_of_ne_zero hrc
+    simp [this] at h
+    exact h
+
+/-- the counterexample: documented "retried [only] if at least one replica acknowledged the write"; the code
+    answers Retry for an UNLOGGED_BATCH write timeout with Received = 0 -/
+theorem C13_cex_downgrading_unlogged_unacked :
+    downgradingGetRetryType (.writeTimeout .unloggedBatch 0 1) = .retry ∧
+    Spec.downgradingDoc (.writeTimeout .unloggedBatch 0 1) = some .rethrow := by
+  decide
+
+/-- **Attempt of the built-in policies**: `DowngradingConsistencyRetryPolicy.Attempt` (answer and the consistency
+    it sets) and `SimpleRetryPolicy.Attempt` / `ExponentialBackoffRetryPolicy.Attempt` are the decision functions
+    the executor theorems are stated for (`downgradingPolicyL`, `simplePolicy`, `exponentialPolicy`), for every
+    value of `Attempts()` and every list of levels -/
+theorem C13_builtin_attempt (ls : List Nat) (n N : Nat) :
+    (downgradingAttempt ls n).1 = (downgradingPolicyL ls).attempt n ∧
+    ((downgradingAttempt ls n).1 = true → (downgradingAttempt ls n).2 = (downgradingPolicyL ls).newCons n) ∧
+    (simpleAttempt N n).1 = (simplePolicy N).attempt n ∧ (simpleAttempt N n).1 = (exponentialPolicy N).attempt n ∧
+    (simpleAttempt N n).2 = (simplePolicy N).newCons n := by
+  refine ⟨?_, ?_, rfl, rfl, rfl⟩
+  · unfold downgradingAttempt downgradingPolicyL
+    by_cases h : n > ls.length
+    · simp [h]
+    · by_cases h0 : n > 0 <;> simp [h, h0] <;> omega
+  · unfold downgradingAttempt downgradingPolicyL
+    by_cases h : n > ls.length
+    · simp [h]
+    · by_cases h0 : n > 0
+      · simp [h, h0]; intro hz; omega
+      · have : n = 0 := by omega
+        simp [this]
+
+/-- **what the caller sees under the downgrading policy, per error value**: an Unavailable with no live replica, a
+    SIMPLE / BATCH / COUNTER write timeout (acknowledged or not) and a write timeout of any other write type except
+    UNLOGGED_BATCH end the execution with THAT attempt — one request for it, its error the caller's — for every
+    statement kind, host list, environment, counter value and list of levels -/
+theorem C13_downgrading_stops (req : Req) (ls : List Nat) (outcome : Nat → Res) (us : Nat → Nat → Bool) (fuel : Nat)
+    (h : Nat) (rest : List Nat) (k cnt cons : Nat) (e : ReqErr) (hu : us k h = true) (ho : outcome k = .err (kindOf e))
+    (hd : downgradingGetRetryType e = .rethrow ∨ downgradingGetRetryType e = .ignore) :
+    let o := doLoop req (some (downgradingPolicyL ls)) outcome us (fuel+1) (h :: rest) k cnt cons none
+    o.attempts = [⟨h, cnt, cons, .err (kindOf e)⟩] ∧ o.final = .last (.err (kindOf e)) := by
+  have hk : (downgradingPolicyL ls).rtype (kindOf e) = downgradingGetRetryType e := (C13_downgrading_decisions e).1
+  exact C13_rethrow_ignore_stop req (downgradingPolicyL ls) outcome us fuel h rest k cnt cons (kindOf e) hu ho (by rw [hk]; exact hd)
+
+example : downgradingGetRetryType (.writeTimeout .cas 2 3) = .rethrow ∧ downgradingGetRetryType (.writeTimeout .batch 1 2) = .ignore ∧
+    downgradingGetRetryType (.unavailable 2 1) = .retry ∧ downgradingAttempt [4, 1] 2 = (true, some 1) ∧
+    downgradingAttempt [4, 1] 3 = (false, none) := by decide
+
 /-! ### cancellation at every point of concurrent executions (`ExecutorConc.MC`, `stepC`)
 
 `derived = true`: the statement's attempts run under the executor's derived context (`*Query`:
